@@ -94,3 +94,33 @@ Proof. exact tie_try_collect_wrong. Qed.
 Theorem C03_tie_flatten2 : forall s l m, length l = length m ->
   Flatten.flatten_owned s (length l) 2 [l; m] = Ret (l ++ m).
 Proof. exact tie_flatten2. Qed.
+
+(* ---- T1: the one-expression bodies this property's code consists of besides the modelled core, as they stand
+        in the source now (coq/gen/GenSigs.v gen_thin_bodies) ---- *)
+From Coq Require Import String.
+From GA Require Import SigTie.
+From GAGen Require Import GenSigs.
+Local Open Scope string_scope.
+
+Theorem C03_source_thin_bodies :
+  thin_of "ArrayBuilder<T,N>" "new" = Some "ArrayBuilder { array : GenericArray :: uninit () , position : 0 , }" /\
+  thin_of "ArrayBuilder<T,N>" "is_full" = Some "self . position == N :: USIZE" /\
+  thin_of "ArrayBuilder<T,N>" "iter_position" = Some "(self . array . iter_mut () , & mut self . position)" /\
+  thin_of "IntrusiveArrayBuilder<,T,N>" "new" = Some "IntrusiveArrayBuilder { array , position : 0 }" /\
+  thin_of "IntrusiveArrayBuilder<,T,N>" "is_full" = Some "self . position == N :: USIZE" /\
+  thin_of "IntrusiveArrayBuilder<,T,N>" "iter_position" = Some "(self . array . iter_mut () , & mut self . position)" /\
+  thin_of "IntrusiveArrayBuilder<,T,N>" "array_assume_init" = Some "ptr :: read (& array as * const _ as * const MaybeUninit < GenericArray < T , N > >) . assume_init ()" /\
+  thin_of "ArrayConsumer<T,N>" "new" = Some "ArrayConsumer { array : ManuallyDrop :: new (array) , position : 0 , }" /\
+  thin_of "ArrayConsumer<T,N>" "iter_position" = Some "(self . array . iter () , & mut self . position)".
+Proof. repeat split. Qed.
+
+(* the builders' endings and the owning builder's extend, as they stand in src/internal.rs now *)
+From GA Require Import CollectTie.
+From GAGen Require Import GenCollect.
+Theorem C03_source_builder_endings :
+  small_of "ArrayBuilder" "assume_init" =
+    Some ["debug_assert ! (self . is_full ()) ;"; "let array = ptr :: read (& self . array) ;";
+          "mem :: forget (self) ;"; "GenericArray :: assume_init (array)"] /\
+  small_of "IntrusiveArrayBuilder" "finish" = Some ["debug_assert ! (self . is_full ()) ;"; "mem :: forget (self)"] /\
+  gen_array_builder_extend = gen_extend.
+Proof. exact (conj (proj1 tie_builder_endings) (conj (proj2 tie_builder_endings) tie_array_builder_extend)). Qed.
